@@ -1,4 +1,8 @@
 import CoxeterVerif.Lemmas.Mutable2
+import CoxeterVerif.Lemmas.Setters
+import CoxeterVerif.Lemmas.SettersEllip
+import CoxeterVerif.Lemmas.SettersSph
+import CoxeterVerif.Lemmas.SettersBalls
 /-!
   # C08 — size setters hit their target by pure similarity; bad targets are refused
 
@@ -365,5 +369,394 @@ example : ∃ k, 0 < k ∧ setterFactor 2 (3:ℝ) 12 = .ok k ∧ 3 * k ^ 2 = 12 
 example : (⟨⟨[⟨0, 0, 0⟩, ⟨1, 0, 0⟩, ⟨0, 1, 0⟩], ⟨0, 0, 1⟩⟩, 1 / 2⟩ : SPGState ℝ).setRadiusAbs 0
     = .ok ⟨⟨[⟨0, 0, 0⟩, ⟨1, 0, 0⟩, ⟨0, 1, 0⟩], ⟨0, 0, 1⟩⟩, 0⟩ :=
   spg_setRadiusAbs_ok _ le_rfl
+
+end
+
+
+/-!
+  ## Every settable property of every class (`Model/Setters.lean`)
+
+  The tables `…Prop.all` enumerate what reflection finds on the ten classes (the harness compares
+  them with `inspect.getmembers` on every run); `get` / `set` are the model of `getattr` /
+  `setattr`.  The theorems below are quantified over the WHOLE enumeration of a class:
+
+  * `…_set_reads_back` — positive target: the setter succeeds, the getter returns the target, and
+    the new state is the old one rescaled by one positive factor (vertices `k·old`, radii / semi-axes
+    `k·old`, cached measures `k³` / `k²`, normal / centre untouched) — or, for a shape parameter
+    (semi-axis, rounding radius), nothing else changes;
+  * `…_bad_target_refused` — zero / negative target: `ValueError`, and (an `Except` has no state
+    in the error case) nothing is modified; `_rescale`'s own guarded assignments cannot fail half-way
+    (`ellipse_rescale_atomic`, `ellipsoid_rescale_atomic`, `spg_rescale_ok`, `sph_rescale_ok`);
+  * `…_getter_raises` — a property whose getter raises on this shape (no circumsphere, not
+    implemented): a positive target re-raises that exception, nothing changes.
+
+  Getters that are closed forms of the model state need no hypothesis (homogeneity is proved);
+  external getters (`lstsq` / miniball radii) enter through `hhom`.
+-/
+open Setters
+noncomputable section
+
+/-! ### ConvexPolyhedron -/
+
+/-- the cached measures are homogeneous under `_rescale` (by construction of `_rescale`) -/
+theorem cp_get_rescale (ball : P3Prop → CPState ℝ → Except String ℝ) (p : P3Prop)
+    (hp : p = .volume ∨ p = .surfaceArea) (s : CPState ℝ) (k : ℝ) :
+    ConvexPolyhedron.get ball p (s.rescale k) = Except.map (· * k ^ p.deg) (ConvexPolyhedron.get ball p s) := by
+  rcases hp with rfl | rfl
+  · show Except.ok (s.volume * (k * k * k)) = Except.ok (s.volume * k ^ 3); congr 1; ring
+  · show Except.ok (s.area * (k * k)) = Except.ok (s.area * k ^ 2); congr 1; ring
+
+/-- **every scalar setter of `ConvexPolyhedron`** (volume, surface_area, circumsphere_radius,
+insphere_radius, the four generic ball radii): reads back, post-state = `_rescale k`, `k > 0` -/
+theorem cp_set_reads_back (ball : P3Prop → CPState ℝ → Except String ℝ) (p : P3Prop) (s : CPState ℝ)
+    (hhom : ∀ k : ℝ, 0 < k → ConvexPolyhedron.get ball p (s.rescale k)
+      = Except.map (· * k ^ p.deg) (ConvexPolyhedron.get ball p s))
+    {cur v : ℝ} (hg : ConvexPolyhedron.get ball p s = .ok cur) (hc : 0 < cur) (hv : 0 < v) :
+    ∃ k, 0 < k ∧ ConvexPolyhedron.set ball p s v = .ok (s.rescale k) ∧
+      ConvexPolyhedron.get ball p (s.rescale k) = .ok v ∧
+      (s.rescale k).verts = s.verts.map (V3.smul k) ∧ (s.rescale k).volume = s.volume * (k * k * k) ∧
+      (s.rescale k).area = s.area * (k * k) ∧ (s.rescale k).eqN = s.eqN := by
+  obtain ⟨k, hk, hf, hr⟩ := size_set_reads_back (ConvexPolyhedron.get ball p) CPState.rescale
+    (P3Prop.deg_cases p) s hhom hg hc hv
+  refine ⟨k, hk, ?_, hr, rfl, rfl, rfl, rfl⟩
+  unfold ConvexPolyhedron.set; rw [hf]; rfl
+
+/-- volume and surface area: no hypothesis on the getter is needed -/
+theorem cp_set_measure_reads_back (ball : P3Prop → CPState ℝ → Except String ℝ) (p : P3Prop)
+    (hp : p = .volume ∨ p = .surfaceArea) (s : CPState ℝ)
+    {cur v : ℝ} (hg : ConvexPolyhedron.get ball p s = .ok cur) (hc : 0 < cur) (hv : 0 < v) :
+    ∃ k, 0 < k ∧ ConvexPolyhedron.set ball p s v = .ok (s.rescale k) ∧
+      ConvexPolyhedron.get ball p (s.rescale k) = .ok v := by
+  obtain ⟨k, hk, h1, h2, _⟩ := cp_set_reads_back ball p s (fun k _ => cp_get_rescale ball p hp s k) hg hc hv
+  exact ⟨k, hk, h1, h2⟩
+
+/-- **ConvexPolyhedron: volume, surface_area and the two centred ball radii** (largest vertex
+distance / smallest face distance from the cached centroid) — all four getters are closed forms
+of the model state, proved homogeneous under `_rescale`; their setters read back with no
+hypothesis on the getter, given only that the centroid cache is coherent (`CPState.Coherent`,
+maintained by every mutator: `Props/C03`) -/
+theorem cp_set_closed_reads_back (ball : P3Prop → CPState ℝ → Except String ℝ) (p : P3Prop)
+    (hp : ConvexPolyhedron.IsClosedForm p) (s : CPState ℝ) (hcen : s.centroid = CP.centroid s.tris s.volume)
+    {cur v : ℝ} (hg : ConvexPolyhedron.get ball p s = .ok cur) (hc : 0 < cur) (hv : 0 < v) :
+    ∃ k, 0 < k ∧ ConvexPolyhedron.set ball p s v = .ok (s.rescale k) ∧
+      ConvexPolyhedron.get ball p (s.rescale k) = .ok v := by
+  obtain ⟨k, hk, h1, h2, _⟩ := cp_set_reads_back ball p s
+    (fun k hk => ConvexPolyhedron.get_rescale_closed ball p hp s hk hcen) hg hc hv
+  exact ⟨k, hk, h1, h2⟩
+
+
+theorem cp_bad_target_refused (ball : P3Prop → CPState ℝ → Except String ℝ) (p : P3Prop) (s : CPState ℝ)
+    {v : ℝ} (hv : ¬ 0 < v) : ConvexPolyhedron.set ball p s v = .error "ValueError" := by
+  unfold ConvexPolyhedron.set; rw [factorE_bad _ _ hv]; rfl
+
+theorem cp_getter_raises (ball : P3Prop → CPState ℝ → Except String ℝ) (p : P3Prop) (s : CPState ℝ)
+    {e : String} (hg : ConvexPolyhedron.get ball p s = .error e) {v : ℝ} (hv : 0 < v) :
+    ConvexPolyhedron.set ball p s v = .error e := by
+  unfold ConvexPolyhedron.set; rw [hg, factorE_getter_raises _ e hv]; rfl
+
+/-! ### Polyhedron -/
+
+theorem ph_get_rescale (ball : P3Prop → PHState ℝ → Except String ℝ) (p : P3Prop)
+    (hp : p = .volume ∨ p = .surfaceArea) (s : PHState ℝ) {k : ℝ} (hk : 0 < k) :
+    Polyhedron.get ball p (s.rescale k) = Except.map (· * k ^ p.deg) (Polyhedron.get ball p s) := by
+  rcases hp with rfl | rfl
+  · exact congrArg Except.ok (ph_volume_rescale s hk)
+  · exact congrArg Except.ok (ph_surfaceArea_rescale s hk)
+
+theorem ph_set_reads_back (ball : P3Prop → PHState ℝ → Except String ℝ) (p : P3Prop) (s : PHState ℝ)
+    (hhom : ∀ k : ℝ, 0 < k → Polyhedron.get ball p (s.rescale k)
+      = Except.map (· * k ^ p.deg) (Polyhedron.get ball p s))
+    {cur v : ℝ} (hg : Polyhedron.get ball p s = .ok cur) (hc : 0 < cur) (hv : 0 < v) :
+    ∃ k, 0 < k ∧ Polyhedron.set ball p s v = .ok (s.rescale k) ∧ Polyhedron.get ball p (s.rescale k) = .ok v ∧
+      (s.rescale k).verts = s.verts.map (V3.smul k) ∧ (s.rescale k).faces = s.faces ∧
+      (s.rescale k).eqN = s.eqN ∧ (s.rescale k).volume = s.volume * k ^ 3 ∧
+      (s.rescale k).surfaceArea = s.surfaceArea * k ^ 2 := by
+  obtain ⟨k, hk, hf, hr⟩ := size_set_reads_back (Polyhedron.get ball p) PHState.rescale
+    (P3Prop.deg_cases p) s hhom hg hc hv
+  refine ⟨k, hk, ?_, hr, rfl, rfl, rfl, ph_volume_rescale s hk, ph_surfaceArea_rescale s hk⟩
+  unfold Polyhedron.set; rw [hf]; rfl
+
+theorem ph_set_measure_reads_back (ball : P3Prop → PHState ℝ → Except String ℝ) (p : P3Prop)
+    (hp : p = .volume ∨ p = .surfaceArea) (s : PHState ℝ)
+    {cur v : ℝ} (hg : Polyhedron.get ball p s = .ok cur) (hc : 0 < cur) (hv : 0 < v) :
+    ∃ k, 0 < k ∧ Polyhedron.set ball p s v = .ok (s.rescale k) ∧ Polyhedron.get ball p (s.rescale k) = .ok v := by
+  obtain ⟨k, hk, h1, h2, _⟩ := ph_set_reads_back ball p s (fun k hk => ph_get_rescale ball p hp s hk) hg hc hv
+  exact ⟨k, hk, h1, h2⟩
+
+theorem ph_bad_target_refused' (ball : P3Prop → PHState ℝ → Except String ℝ) (p : P3Prop) (s : PHState ℝ)
+    {v : ℝ} (hv : ¬ 0 < v) : Polyhedron.set ball p s v = .error "ValueError" := by
+  unfold Polyhedron.set; rw [factorE_bad _ _ hv]; rfl
+
+theorem ph_getter_raises (ball : P3Prop → PHState ℝ → Except String ℝ) (p : P3Prop) (s : PHState ℝ)
+    {e : String} (hg : Polyhedron.get ball p s = .error e) {v : ℝ} (hv : 0 < v) :
+    Polyhedron.set ball p s v = .error e := by
+  unfold Polyhedron.set; rw [hg, factorE_getter_raises _ e hv]; rfl
+
+/-! ### Polygon / ConvexPolygon -/
+
+theorem pg_get_rescale (ball : P2Prop → PGState ℝ → Except String ℝ) (p : P2Prop)
+    (hp : p = .area ∨ p = .perimeter) (s : PGState ℝ) {k : ℝ} (hk : 0 < k) :
+    Polygon.get ball p (s.rescale k) = Except.map (· * k ^ p.deg) (Polygon.get ball p s) := by
+  rcases hp with rfl | rfl
+  · exact congrArg Except.ok (pg_area_rescale s k)
+  · show Except.ok _ = Except.ok _
+    rw [pg_perimeter_rescale s hk.le]; congr 1; simp [P2Prop.deg]
+
+theorem pg_set_reads_back (ball : P2Prop → PGState ℝ → Except String ℝ) (p : P2Prop) (s : PGState ℝ)
+    (hhom : ∀ k : ℝ, 0 < k → Polygon.get ball p (s.rescale k)
+      = Except.map (· * k ^ p.deg) (Polygon.get ball p s))
+    {cur v : ℝ} (hg : Polygon.get ball p s = .ok cur) (hc : 0 < cur) (hv : 0 < v) :
+    ∃ k, 0 < k ∧ Polygon.set ball p s v = .ok (s.rescale k) ∧ Polygon.get ball p (s.rescale k) = .ok v ∧
+      (s.rescale k).verts = s.verts.map (V3.smul k) ∧ (s.rescale k).normal = s.normal ∧
+      (s.rescale k).area = s.area * k ^ 2 ∧ (s.rescale k).perimeter = s.perimeter * k := by
+  obtain ⟨k, hk, hf, hr⟩ := size_set_reads_back (Polygon.get ball p) PGState.rescale
+    (P2Prop.deg_cases p) s hhom hg hc hv
+  refine ⟨k, hk, ?_, hr, rfl, rfl, pg_area_rescale s k, pg_perimeter_rescale s hk.le⟩
+  unfold Polygon.set; rw [hf]; rfl
+
+theorem pg_set_measure_reads_back (ball : P2Prop → PGState ℝ → Except String ℝ) (p : P2Prop)
+    (hp : p = .area ∨ p = .perimeter) (s : PGState ℝ)
+    {cur v : ℝ} (hg : Polygon.get ball p s = .ok cur) (hc : 0 < cur) (hv : 0 < v) :
+    ∃ k, 0 < k ∧ Polygon.set ball p s v = .ok (s.rescale k) ∧ Polygon.get ball p (s.rescale k) = .ok v := by
+  obtain ⟨k, hk, h1, h2, _⟩ := pg_set_reads_back ball p s (fun k hk => pg_get_rescale ball p hp s hk) hg hc hv
+  exact ⟨k, hk, h1, h2⟩
+
+theorem pg_bad_target_refused' (ball : P2Prop → PGState ℝ → Except String ℝ) (p : P2Prop) (s : PGState ℝ)
+    {v : ℝ} (hv : ¬ 0 < v) : Polygon.set ball p s v = .error "ValueError" := by
+  unfold Polygon.set; rw [factorE_bad _ _ hv]; rfl
+
+theorem pg_getter_raises (ball : P2Prop → PGState ℝ → Except String ℝ) (p : P2Prop) (s : PGState ℝ)
+    {e : String} (hg : Polygon.get ball p s = .error e) {v : ℝ} (hv : 0 < v) :
+    Polygon.set ball p s v = .error e := by
+  unfold Polygon.set; rw [hg, factorE_getter_raises _ e hv]; rfl
+
+/-! ### ConvexSpheropolygon -/
+
+theorem spg_set_unfold (ball : SPGProp → SPGState ℝ → Except String ℝ) (p : SPGProp) (hp : p ≠ .radius)
+    (s : SPGState ℝ) (v : ℝ) :
+    Spheropolygon.set ball p s v = (do let k ← factorE p.deg (Spheropolygon.get ball p s) v; s.rescale k) := by
+  cases p with
+  | radius => exact absurd rfl hp
+  | area => rfl
+  | perimeter => rfl
+  | ball bp => rfl
+
+theorem spg_get_rescale (ball : SPGProp → SPGState ℝ → Except String ℝ) (p : SPGProp)
+    (hp : p = .area ∨ p = .perimeter) (s : SPGState ℝ) {k : ℝ} (hk : 0 < k) :
+    Spheropolygon.get ball p (spgScaled s k) = Except.map (· * k ^ p.deg) (Spheropolygon.get ball p s) := by
+  rcases hp with rfl | rfl
+  · exact congrArg Except.ok (spg_area_rescale s hk)
+  · show Except.ok _ = Except.ok _
+    rw [spg_perimeter_rescale s hk.le]; congr 1; simp [SPGProp.deg]
+
+/-- **every size setter of `ConvexSpheropolygon`**: reads back; core vertices and rounding radius
+scale by the same positive factor, the normal is untouched -/
+theorem spg_set_reads_back (ball : SPGProp → SPGState ℝ → Except String ℝ) (p : SPGProp) (hp : p ≠ .radius)
+    (s : SPGState ℝ) (hr : 0 ≤ s.radius)
+    (hhom : ∀ k : ℝ, 0 < k → Spheropolygon.get ball p (spgScaled s k)
+      = Except.map (· * k ^ p.deg) (Spheropolygon.get ball p s))
+    {cur v : ℝ} (hg : Spheropolygon.get ball p s = .ok cur) (hc : 0 < cur) (hv : 0 < v) :
+    ∃ k, 0 < k ∧ Spheropolygon.set ball p s v = .ok (spgScaled s k) ∧
+      Spheropolygon.get ball p (spgScaled s k) = .ok v ∧
+      (spgScaled s k).core.verts = s.core.verts.map (V3.smul k) ∧ (spgScaled s k).radius = s.radius * k ∧
+      (spgScaled s k).core.normal = s.core.normal := by
+  obtain ⟨k, hk, hf, hrb⟩ := size_set_reads_back (Spheropolygon.get ball p) spgScaled
+    (SPGProp.deg_cases p) s hhom hg hc hv
+  refine ⟨k, hk, ?_, hrb, rfl, rfl, rfl⟩
+  rw [spg_set_unfold ball p hp, hf]; exact spg_rescale_ok s hk.le hr
+
+theorem spg_set_measure_reads_back (ball : SPGProp → SPGState ℝ → Except String ℝ) (p : SPGProp)
+    (hp : p = .area ∨ p = .perimeter) (s : SPGState ℝ) (hr : 0 ≤ s.radius)
+    {cur v : ℝ} (hg : Spheropolygon.get ball p s = .ok cur) (hc : 0 < cur) (hv : 0 < v) :
+    ∃ k, 0 < k ∧ Spheropolygon.set ball p s v = .ok (spgScaled s k) ∧
+      Spheropolygon.get ball p (spgScaled s k) = .ok v := by
+  have hne : p ≠ .radius := by rcases hp with rfl | rfl <;> simp
+  obtain ⟨k, hk, h1, h2, _⟩ := spg_set_reads_back ball p hne s hr
+    (fun k hk => spg_get_rescale ball p hp s hk) hg hc hv
+  exact ⟨k, hk, h1, h2⟩
+
+/-- the rounding radius: negative values refused; everything else: non-positive values refused -/
+theorem spg_bad_target_refused' (ball : SPGProp → SPGState ℝ → Except String ℝ) (p : SPGProp) (s : SPGState ℝ)
+    {v : ℝ} (hv : if p = .radius then v < 0 else ¬ 0 < v) :
+    Spheropolygon.set ball p s v = .error "ValueError" := by
+  by_cases hp : p = .radius
+  · subst hp
+    simp only [if_true] at hv
+    exact spg_setRadiusAbs_bad s (not_le.mpr hv)
+  · simp only [if_neg hp] at hv
+    rw [spg_set_unfold ball p hp, factorE_bad _ _ hv]; rfl
+
+theorem spg_getter_raises (ball : SPGProp → SPGState ℝ → Except String ℝ) (p : SPGProp) (hp : p ≠ .radius)
+    (s : SPGState ℝ) {e : String} (hg : Spheropolygon.get ball p s = .error e) {v : ℝ} (hv : 0 < v) :
+    Spheropolygon.set ball p s v = .error e := by
+  rw [spg_set_unfold ball p hp, hg, factorE_getter_raises _ e hv]; rfl
+
+/-! ### ConvexSpheropolyhedron: read-back through the edge-sum getters -/
+
+theorem sphScaled_eq (s : SPHState ℝ) (k : ℝ) : sphScaled s k = Spheropolyhedron.scaled s k := rfl
+
+/-- **`volume` / `surface_area` / `mean_curvature` setters of `ConvexSpheropolyhedron` read back
+through the getters the Python evaluates** (sums of `(π − φ)·L` over the face intersections of the
+current core): no homogeneity hypothesis — it is proved (`Spheropolyhedron.get_scaled`) -/
+theorem sph_set_reads_back (fi : List Steiner.FaceIx) (ball : SPHProp → SPHState ℝ → Except String ℝ)
+    (p : SPHProp) (hp : Spheropolyhedron.IsSize p) (s : SPHState ℝ) (hr : 0 ≤ s.radius) {cur v : ℝ}
+    (hg : Spheropolyhedron.get fi ball p s = .ok cur) (hc : 0 < cur) (hv : 0 < v) :
+    ∃ k, 0 < k ∧ Spheropolyhedron.set fi ball p s v = .ok (sphScaled s k) ∧
+      Spheropolyhedron.get fi ball p (sphScaled s k) = .ok v ∧
+      (sphScaled s k).core.verts = s.core.verts.map (V3.smul k) ∧ (sphScaled s k).radius = s.radius * k ∧
+      (sphScaled s k).core.eqN = s.core.eqN := by
+  obtain ⟨k, hk, h1, h2⟩ := Spheropolyhedron.set_size_reads_back fi ball p hp s hr hg hc hv
+  exact ⟨k, hk, h1, h2, rfl, rfl, rfl⟩
+
+/-- the three measures of a spheropolyhedron after `_rescale(k)`: `k³`, `k²`, `k` times the old
+ones — hence `iq = 36πV²/S³` and every other ratio of matching degree is preserved -/
+theorem sph_measures_rescale (fi : List Steiner.FaceIx) (ball : SPHProp → SPHState ℝ → Except String ℝ)
+    (s : SPHState ℝ) {k : ℝ} (hk : 0 ≤ k) :
+    Spheropolyhedron.get fi ball .volume (sphScaled s k)
+      = Except.map (· * k ^ 3) (Spheropolyhedron.get fi ball .volume s) ∧
+    Spheropolyhedron.get fi ball .surfaceArea (sphScaled s k)
+      = Except.map (· * k ^ 2) (Spheropolyhedron.get fi ball .surfaceArea s) ∧
+    Spheropolyhedron.get fi ball .meanCurvature (sphScaled s k)
+      = Except.map (· * k ^ 1) (Spheropolyhedron.get fi ball .meanCurvature s) :=
+  ⟨Spheropolyhedron.get_scaled fi ball .volume (Or.inl rfl) s hk,
+   Spheropolyhedron.get_scaled fi ball .surfaceArea (Or.inr (Or.inl rfl)) s hk,
+   Spheropolyhedron.get_scaled fi ball .meanCurvature (Or.inr (Or.inr rfl)) s hk⟩
+
+theorem sph_iq_preserved {V S k : ℝ} (hk : 0 < k) (hS : S ≠ 0) :
+    Steiner.Shape3D.iq (V * k ^ 3) (S * k ^ 2) = Steiner.Shape3D.iq V S := by
+  unfold Steiner.Shape3D.iq Scalar.sqr Scalar.cube
+  have hk' : k ≠ 0 := hk.ne'
+  field_simp
+
+theorem sph_bad_target_refused' (fi : List Steiner.FaceIx) (ball : SPHProp → SPHState ℝ → Except String ℝ)
+    (p : SPHProp) (s : SPHState ℝ) {v : ℝ} (hv : if p = .radius then v < 0 else ¬ 0 < v) :
+    Spheropolyhedron.set fi ball p s v = .error "ValueError" :=
+  Spheropolyhedron.bad_target_refused fi ball p s hv
+
+theorem sph_getter_raises (fi : List Steiner.FaceIx) (ball : SPHProp → SPHState ℝ → Except String ℝ)
+    (p : SPHProp) (hp : p ≠ .radius) (s : SPHState ℝ) {e : String}
+    (hg : Spheropolyhedron.get fi ball p s = .error e) {v : ℝ} (hv : 0 < v) :
+    Spheropolyhedron.set fi ball p s v = .error e :=
+  Spheropolyhedron.set_getter_raises fi ball p hp s hg hv
+
+/-! ### the curved classes -/
+
+/-- **Circle: every scalar settable property** (radius, area, perimeter, circumference, the four
+ball radii) reads back, centre untouched, radius positive -/
+theorem circle_set_reads_back (p : CircleProp) (s : CircleS ℝ) (hr : 0 < s.radius) {v : ℝ} (hv : 0 < v) :
+    ∃ s', CircleS.set p s v = .ok s' ∧ CircleS.get p s' = .ok v ∧ s'.cen = s.cen ∧ 0 < s'.radius :=
+  CircleS.set_reads_back p s hr hv
+
+theorem circle_bad_target_refused (p : CircleProp) (s : CircleS ℝ) {v : ℝ} (hv : ¬ 0 < v) :
+    CircleS.set p s v = .error "ValueError" := CircleS.bad_target_refused p s hv
+
+theorem sphere_set_reads_back (p : SphereProp) (s : SphereS ℝ) (hr : 0 < s.radius) {v : ℝ} (hv : 0 < v) :
+    ∃ s', SphereS.set p s v = .ok s' ∧ SphereS.get p s' = .ok v ∧ s'.cen = s.cen ∧ 0 < s'.radius :=
+  SphereS.set_reads_back p s hr hv
+
+theorem sphere_bad_target_refused (p : SphereProp) (s : SphereS ℝ) {v : ℝ} (hv : ¬ 0 < v) :
+    SphereS.set p s v = .error "ValueError" := SphereS.bad_target_refused p s hv
+
+/-- **Ellipse: every size setter** (area, perimeter, circumference, the four ball radii) reads
+back and scales both semi-axes by one positive factor; `ellipe` is an arbitrary function -/
+theorem ellipse_set_reads_back (ellipe : ℝ → ℝ) (p : EllipseProp) (hp : p.isShapeParam = false)
+    (s : EllipseS ℝ) (ha : 0 < s.a) (hb : 0 < s.b)
+    (hP : 0 < Curved.Ellipse.perimeter ellipe s.a s.b) {v : ℝ} (hv : 0 < v) :
+    ∃ k s', 0 < k ∧ EllipseS.set ellipe p s v = .ok s' ∧ EllipseS.get ellipe p s' = .ok v ∧
+      s'.a = s.a * k ∧ s'.b = s.b * k ∧ s'.cen = s.cen :=
+  EllipseS.set_size_reads_back ellipe p hp s ha hb hP hv
+
+theorem ellipse_axis_reads_back (ellipe : ℝ → ℝ) (s : EllipseS ℝ) {v : ℝ} (hv : 0 < v) :
+    (∃ s', EllipseS.set ellipe .a s v = .ok s' ∧ EllipseS.get ellipe .a s' = .ok v ∧ s'.b = s.b ∧ s'.cen = s.cen) ∧
+    (∃ s', EllipseS.set ellipe .b s v = .ok s' ∧ EllipseS.get ellipe .b s' = .ok v ∧ s'.a = s.a ∧ s'.cen = s.cen) :=
+  EllipseS.set_shape_reads_back ellipe s hv
+
+theorem ellipse_bad_target_refused (ellipe : ℝ → ℝ) (p : EllipseProp) (s : EllipseS ℝ) {v : ℝ} (hv : ¬ 0 < v) :
+    EllipseS.set ellipe p s v = .error "ValueError" := EllipseS.bad_target_refused ellipe p s hv
+
+theorem ellipse_rescale_atomic (s : EllipseS ℝ) (ha : 0 < s.a) (hb : 0 < s.b) (k : ℝ) :
+    (∃ s', s.rescale k = .ok s') ∨ s.setA (s.a * k) = .error "ValueError" := EllipseS.rescale_atomic s ha hb k
+
+/-- eccentricity and isoperimetric quotient of an ellipse are unchanged by every size setter -/
+theorem ellipse_dimensionless (ellipe : ℝ → ℝ) {k : ℝ} (hk : 0 < k) (a b : ℝ) :
+    Curved.Ellipse.eccentricity (a * k) (b * k) = Curved.Ellipse.eccentricity a b ∧
+    Curved.Ellipse.iq ellipe (a * k) (b * k) = Curved.Ellipse.iq ellipe a b := EllipseS.dimensionless ellipe hk a b
+
+/-- **Ellipsoid: every size setter** (volume, surface_area with arbitrary `ellipeinc` / `ellipkinc`,
+the four ball radii) reads back and scales all three semi-axes by one positive factor -/
+theorem ellipsoid_set_reads_back (einc kinc : ℝ → ℝ → ℝ) (p : EllipsoidProp) (hp : p.isShapeParam = false)
+    (s : EllipsoidS ℝ) (ha : 0 < s.a) (hb : 0 < s.b) (hc : 0 < s.c)
+    (hS : 0 < Curved.Ellipsoid.surfaceArea einc kinc s.a s.b s.c) {v : ℝ} (hv : 0 < v) :
+    ∃ k s', 0 < k ∧ EllipsoidS.set einc kinc p s v = .ok s' ∧ EllipsoidS.get einc kinc p s' = .ok v ∧
+      s'.a = s.a * k ∧ s'.b = s.b * k ∧ s'.c = s.c * k ∧ s'.cen = s.cen :=
+  EllipsoidS.set_size_reads_back einc kinc p hp s ha hb hc hS hv
+
+theorem ellipsoid_axis_reads_back (einc kinc : ℝ → ℝ → ℝ) (s : EllipsoidS ℝ) {v : ℝ} (hv : 0 < v) :
+    (∃ s', EllipsoidS.set einc kinc .a s v = .ok s' ∧ EllipsoidS.get einc kinc .a s' = .ok v ∧
+      s'.b = s.b ∧ s'.c = s.c ∧ s'.cen = s.cen) ∧
+    (∃ s', EllipsoidS.set einc kinc .b s v = .ok s' ∧ EllipsoidS.get einc kinc .b s' = .ok v ∧
+      s'.a = s.a ∧ s'.c = s.c ∧ s'.cen = s.cen) ∧
+    (∃ s', EllipsoidS.set einc kinc .c s v = .ok s' ∧ EllipsoidS.get einc kinc .c s' = .ok v ∧
+      s'.a = s.a ∧ s'.b = s.b ∧ s'.cen = s.cen) :=
+  EllipsoidS.set_shape_reads_back einc kinc s hv
+
+theorem ellipsoid_bad_target_refused (einc kinc : ℝ → ℝ → ℝ) (p : EllipsoidProp) (s : EllipsoidS ℝ) {v : ℝ}
+    (hv : ¬ 0 < v) : EllipsoidS.set einc kinc p s v = .error "ValueError" :=
+  EllipsoidS.bad_target_refused einc kinc p s hv
+
+theorem ellipsoid_rescale_atomic (s : EllipsoidS ℝ) (ha : 0 < s.a) (hb : 0 < s.b) (hc : 0 < s.c) (k : ℝ) :
+    (∃ s', s.rescale k = .ok s') ∨ s.setA (s.a * k) = .error "ValueError" :=
+  EllipsoidS.rescale_atomic s ha hb hc k
+
+theorem ellipsoid_dimensionless (einc kinc : ℝ → ℝ → ℝ) {k : ℝ} (hk : 0 < k) (a b c : ℝ) :
+    Curved.Ellipsoid.iq einc kinc (a * k) (b * k) (c * k) = Curved.Ellipsoid.iq einc kinc a b c :=
+  EllipsoidS.dimensionless einc kinc hk a b c
+
+/-- centre assignment on the curved classes is a pure translation: the radii are untouched -/
+theorem curved_setCentre (c : V3 ℝ) (s1 : CircleS ℝ) (s2 : SphereS ℝ) (s3 : EllipseS ℝ) (s4 : EllipsoidS ℝ) :
+    ((s1.setCentre c).cen = c ∧ (s1.setCentre c).radius = s1.radius) ∧
+    ((s2.setCentre c).cen = c ∧ (s2.setCentre c).radius = s2.radius) ∧
+    ((s3.setCentre c).cen = c ∧ (s3.setCentre c).a = s3.a ∧ (s3.setCentre c).b = s3.b) ∧
+    ((s4.setCentre c).cen = c ∧ (s4.setCentre c).a = s4.a ∧ (s4.setCentre c).b = s4.b ∧ (s4.setCentre c).c = s4.c) :=
+  ⟨⟨rfl, rfl⟩, ⟨rfl, rfl⟩, ⟨rfl, rfl, rfl⟩, ⟨rfl, rfl, rfl, rfl⟩⟩
+
+/-- the guard in isolation, with a readable getter: accepted exactly for positive targets -/
+theorem factorE_accepts_iff (deg : Nat) (cur v : ℝ) : (∃ k, factorE deg (.ok cur) v = .ok k) ↔ 0 < v :=
+  factorE_ok_iff deg cur v
+
+/-! ### non-vacuity of the new theorems -/
+
+/-- a unit circle assigned area `4π` becomes the circle of radius 2 -/
+example : ∃ s', CircleS.set .area (⟨1, ⟨0, 0, 0⟩⟩ : CircleS ℝ) (4 * Real.pi) = .ok s' ∧
+    CircleS.get .area s' = .ok (4 * Real.pi) :=
+  let ⟨s', h1, h2, _⟩ := circle_set_reads_back .area ⟨1, ⟨0, 0, 0⟩⟩ (by norm_num) (by positivity)
+  ⟨s', h1, h2⟩
+
+/-- the 2 × 1 ellipse with `ellipe ≡ 1` (perimeter `4·max(a,b) = 8`): circumference := 16 doubles both axes -/
+example : ∃ k s', 0 < k ∧ EllipseS.set (fun _ => (1:ℝ)) .circumference ⟨2, 1, ⟨0, 0, 0⟩⟩ 16 = .ok s' ∧
+    s'.a = 2 * k ∧ s'.b = 1 * k := by
+  have hP : 0 < Curved.Ellipse.perimeter (fun _ => (1:ℝ)) 2 1 := by
+    unfold Curved.Ellipse.perimeter
+    rw [Curved.sort2_real]
+    simp only [Scalar.lit, Scalar.ofNat_real]; push_cast; norm_num
+  obtain ⟨k, s', hk, h1, _, h3, h4, _⟩ := ellipse_set_reads_back (fun _ => (1:ℝ)) .circumference rfl
+    ⟨2, 1, ⟨0, 0, 0⟩⟩ (by norm_num) (by norm_num) hP (show (0:ℝ) < 16 by norm_num)
+  exact ⟨k, s', hk, h1, h3, h4⟩
+
+/-- a spheropolyhedron without face intersections (`fi = []`): `mean_curvature = r`, and the setter
+to `3` from `r = 1/2` rescales by `6` -/
+example (core : CPState ℝ) (ball : SPHProp → SPHState ℝ → Except String ℝ) :
+    ∃ k, 0 < k ∧ Spheropolyhedron.set [] ball .meanCurvature ⟨core, 1 / 2⟩ 3 = .ok (sphScaled ⟨core, 1 / 2⟩ k) ∧
+      (1 / 2 : ℝ) * k ^ 1 = 3 := by
+  have hg : Spheropolyhedron.get [] ball .meanCurvature ⟨core, 1 / 2⟩ = .ok (1 / 2 : ℝ) := by
+    show Except.ok (Steiner.SpheroPolyhedron.meanCurvatureOf (1 / 2 : ℝ) []) = _
+    rw [Spheropolyhedron.meanCurvatureOf_closed]; simp [Steiner.edgeSumR]
+  obtain ⟨k, hk, h1, h2, _⟩ := sph_set_reads_back [] ball .meanCurvature (Or.inr (Or.inr rfl)) ⟨core, 1 / 2⟩
+    (by norm_num) hg (by norm_num) (show (0:ℝ) < 3 by norm_num)
+  refine ⟨k, hk, h1, ?_⟩
+  have h3 := Spheropolyhedron.get_scaled [] ball .meanCurvature (Or.inr (Or.inr rfl)) ⟨core, 1 / 2⟩ hk.le
+  rw [sphScaled_eq] at h2
+  rw [h2, hg] at h3
+  exact (Except.ok.inj h3).symm
 
 end
